@@ -59,8 +59,54 @@ def with_own_findings(ck):
     ck.load_known = load
 
 
+RAW_TIMEOUT_NAMES = ["timeout@LuaTypeIndex::super_reaches", "timeout@checker::check_file", "timeout@find_members::find_members_guard",
+                     "timeout@EmmyLuaAnalysis::update_files_by_uri", "timeout@type_check::check_general_type_compact",
+                     "timeout@generic_type::check_generic_type_compact", "timeout@instantiate_special_generic::instantiate_alias_call",
+                     "timeout:alias:generic", "timeout:alias:self", "timeout:alias:mutual", "timeout:mix:mix", "timeout:class:chain",
+                     "timeout:class:weird-super", "timeout:corpus"]
+
+TIMEOUT_CLASSES = [
+    # (signature, predicate on the concatenated program text) -- first match wins
+    ("timeout:class-chain:depth>=1000", lambda t: len(re.findall(r"(?m)^---@class \w+: \w+\s*$", t)) >= 1000),
+    ("timeout:recursive-mapped-alias", lambda t: any(re.search(r"\b%s\b" % re.escape(m.group(1)), m.group(2))
+                                                      for m in re.finditer(r"(?m)^---@alias (\w+)(?:<[^>\n]*>)?\s+(.*\[\s*\w+ in keyof.*)$", t))),
+    ("timeout:generic-bound-cycle", lambda t: re.search(r"(?m)^---@class (\w+)<\w+\s*:\s*\1<", t) is not None),
+    ("timeout:alias-through-intersection", lambda t: _alias_through_intersection(t)),
+]
+
+
+def _alias_through_intersection(t):
+    aliases = set(re.findall(r"(?m)^---@alias (\w+)", t))
+    for m in re.finditer(r"(?m)^---@alias (\w+)(?:<[^>\n]*>)?\s+(.*&.*)$", t):
+        if any(re.search(r"\b%s\b" % re.escape(a), m.group(2)) for a in aliases):
+            return True
+    return False
+
+
+def normalise(v, case):
+    """The harness names a time-out after the function one gdb sample happens to land in; for the exponential / quadratic
+    blow-ups that name varies from run to run (and with the machine load).  Time-outs are therefore keyed by the shape of
+    the program: the class of input that is known to blow up.  Anything else keeps the harness signature."""
+    if v.get("kind") != "timeout":
+        return v["signature"]
+    orig = v.get("case") or case
+    text = "\n".join(f[1] for f in (orig.get("files") or []))
+    for sig, pred in TIMEOUT_CLASSES:
+        try:
+            if pred(text):
+                return sig
+        except re.error:
+            pass
+    return v["signature"]
+
+
 def search(ck, binpath, n, budget_ms):
     known = [e["signature"] for e in ck.load_known()]
+    for e in ck.load_known():
+        known += e.get("harness_signatures", [])   # raw names the harness may give to a class that is keyed otherwise
+    if any(k.startswith("timeout:") for k in known):
+        # raw time-out names only tell the harness not to spend its budget shrinking; the verdict uses normalise()
+        known += RAW_TIMEOUT_NAMES
     kf = os.path.join(ck.work, "known_signatures.json")
     json.dump(known, open(kf, "w"))
     rc, out, err = ck.run_bin(binpath, ["search", "--seed", ck.seed, "--n", n, "--budget-ms", budget_ms, "--known-file", kf,
@@ -84,7 +130,7 @@ def search(ck, binpath, n, budget_ms):
             ck.add_measured(s.get("cases", 0), s.get("distinct_nontrivial", 0))
             continue
         case = v.get("shrunk") or v.get("case") or {}
-        ck.violation(v["signature"], "%s: %s" % (v.get("kind", "crash"), v.get("what", "")[:300]),
+        ck.violation(normalise(v, case), "%s: %s" % (v.get("kind", "crash"), v.get("what", "")[:300]),
                      {"files": case.get("files"), "cfg": case.get("cfg"), "family": case.get("family"), "kind": v.get("kind"),
                       "parser_only_crashes": v.get("parser_only_crashes")})
     ck.sample({"kind": "search summary", "signatures": ck.cov["distribution"].get("search", {}).get("signatures")})
